@@ -422,7 +422,7 @@ func (r *immRunner) Exec(line string) string {
 }
 
 func (immunityComp) Gen(rng *rand.Rand, tier string) [][]string {
-	nh, steps := 200, 60
+	nh, steps := 800, 60
 	if tier == "thorough" {
 		nh, steps = 6000, 90
 	}
